@@ -31,7 +31,7 @@ BITMAP_FAMILIES = ["all", "none", "alt", "alt2", "random", "single", "prefix", "
 
 
 def budget(tier):
-    return 1500 if tier == "quick" else 60000
+    return 8000 if tier == "quick" else 60000
 
 
 @st.composite
